@@ -62,6 +62,15 @@ static vj_t *havoc_jwk(int allow_keys)
 		strcpy(o->key[k], jwk_alpha[k]);
 		if (k == S_KEYS && !allow_keys)
 			continue;
+#ifdef OCT_ONLY
+		/* the symmetric-key path alone: kty is the text "oct", everything else stays arbitrary */
+		if (k == S_KTY) {
+			json_t *t = json_string("oct");
+			__CPROVER_assume(t != NULL);
+			vj_attach_member(o, k, VJ(t));
+			continue;
+		}
+#endif
 		if (k != S_KEYS && nondet_bool()) {
 			vj_attach_member(o, k, VJ(vj_havoc_scalar_or_empty()));   /* any JSON type */
 		}
@@ -598,6 +607,15 @@ int main(void)
 		PROP(vf_live - base_live == own && vj_live - base_vj == ownj,
 		     "C07: nothing but what the keyring owns stays allocated after a load (no leaked temporary)");
 	}
+#ifdef FREE_AFTER
+	/* C16 "no sequence leaks": load, then release the keyring - everything the load allocated
+	 * (items good or errored, their key bytes, kid, JSON copies) is gone */
+	jwks_free(ret);
+	PROP(vf_live == base_live, "C16: releasing the keyring releases every block the load allocated (errored items included)");
+#if SHAPE != 0
+	PROP(vj_live - base_vj == (long)VJ(doc)->weight, "C16: releasing the keyring releases every JSON copy the load made");
+#endif
+#endif
 	return 0;
 }
 #endif
